@@ -69,6 +69,16 @@ def main():
             vline = [l for l in oc.splitlines() if l.startswith("VIOLATION") or l.startswith("OK ") or l.startswith("INCONCLUSIVE")]
             msg = [l for l in oc.splitlines() if "violated [" in l]
             results[cid] = {"verdict": verdict, "seconds": round(time.time() - t0), "line": (vline or [""])[0][:200], "failure": (msg or [""])[-1][:400]}
+            # a catch only counts if the saved case holds on the unchanged tree (replayed three times there)
+            mrep = re.search(r"VIOLATION property=\S+ replay=(\S+)", oc)
+            if rcc == 1 and mrep and os.path.exists(mrep.group(1)) and not os.path.basename(mrep.group(1)).startswith("fuzz-"):
+                fails = 0
+                for _ in range(3):
+                    rcr, _o = sh(f"./check {cid} --replay {mrep.group(1)}", cwd=ROOT)
+                    fails += rcr == 1
+                results[cid]["replay_on_unchanged_tree"] = f"{3 - fails}/3 hold"
+                if fails:
+                    results[cid]["verdict"] = "NOT-CONFIRMED (the saved case also fails on the unchanged tree)"
             print(pid, cid, verdict, results[cid]["failure"][:160])
         out["checks"] = results
     except SystemExit:
